@@ -56,6 +56,9 @@ ENDINGS = {
     # failures in the [conf] phase itself (before anything else of the case is looked at)
     'CONF_VALIDATION_ERROR': ('[conf]\nhome = no-such-dir-{id}\n' + PASS_BODY, 'VALIDATION_ERROR', False),
     'CONF_VALIDATION_ERROR_act_home': ('[conf]\nact-home = no-such-dir-{id}\n' + PASS_BODY, 'VALIDATION_ERROR', False),
+    # the status is SKIP already when a later [conf] instruction fails: only the REMAINING phases are skipped
+    'SKIP_THEN_CONF_VALIDATION_ERROR': ('[conf]\nstatus = SKIP\nhome = no-such-dir-{id}\n' + PASS_BODY, 'VALIDATION_ERROR', False),
+    'SKIP_THEN_CONF_INTERNAL_ERROR': ('[conf]\nstatus = SKIP\nsim-fault cx{id}\n' + PASS_BODY, 'INTERNAL_ERROR', False),
     'CONF_HARD_ERROR': ('[conf]\nsim-fault cx{id}\n' + PASS_BODY, 'HARD_ERROR', False),
     'CONF_INTERNAL_ERROR': ('[conf]\nsim-fault cx{id}\n' + PASS_BODY, 'INTERNAL_ERROR', False),
     'SYNTAX_ERROR': ('[setup]\n% mark-{id}\nno-such-instruction\n[act]\n% atc\n', 'SYNTAX_ERROR', False),
@@ -443,8 +446,8 @@ def execute(plan, scratch):
     faults = [{'id': 'ax' + c['id'], 'step': 'main', 'kind': 'raise_exc', 'exc': 'RuntimeError'}
               for s in plan['hierarchy'].values() for c in s['cases'] if c['ending'] == 'INTERNAL_ERROR']
     faults += [{'id': 'cx' + c['id'], 'step': 'main', 'exc': 'RuntimeError',
-                'kind': 'raise_exc' if c['ending'] == 'CONF_INTERNAL_ERROR' else 'svh_hard'}
-               for s in plan['hierarchy'].values() for c in s['cases'] if c['ending'] in ('CONF_INTERNAL_ERROR', 'CONF_HARD_ERROR')]
+                'kind': 'raise_exc' if c['ending'] in ('CONF_INTERNAL_ERROR', 'SKIP_THEN_CONF_INTERNAL_ERROR') else 'svh_hard'}
+               for s in plan['hierarchy'].values() for c in s['cases'] if c['ending'] in ('CONF_INTERNAL_ERROR', 'CONF_HARD_ERROR', 'SKIP_THEN_CONF_INTERNAL_ERROR')]
     procs = {'atc': {'exit': 0}, 'failing': {'exit': 3, 'stderr': 'boom\n'}, 'stall': {'duration': 'inf'},
              'nostart': {'spawn_error': 'ENOENT'}, 'pp': {'exit': 0, 'cat_last_arg_file': True},
              'chatty': {'exit': 2, 'stdout': 'chatty: written on stdout\n', 'stderr': 'same text\n'},
